@@ -4,6 +4,7 @@ import hashlib
 import marshal
 import os
 import sys
+import types
 
 from xonsh import __version__ as XONSH_VERSION
 from xonsh.built_ins import XSH
@@ -156,16 +157,18 @@ def script_cache_check(filename, cachefname):
     run_cached = False
     if os.path.isfile(cachefname):
         if os.stat(cachefname).st_mtime >= os.stat(filename).st_mtime:
-            with open(cachefname, "rb") as cfile:
-                if not _check_cache_versions(cfile):
-                    return False, None
-                try:
+            try:
+                with open(cachefname, "rb") as cfile:
+                    if not _check_cache_versions(cfile):
+                        return False, None
                     ccode = marshal.load(cfile)
-                except Exception:
-                    # Cache file is corrupted (e.g. truncated by a crash).
-                    # Ignore it — the script will be recompiled and cached again.
-                    return False, None
-                run_cached = True
+            except Exception:
+                # Cache file is unreadable or corrupted (e.g. truncated by a
+                # crash). Ignore it — the script will be recompiled and cached again.
+                return False, None
+            if not isinstance(ccode, types.CodeType):
+                return False, None
+            run_cached = True
     return run_cached, ccode
 
 
@@ -210,16 +213,18 @@ def code_cache_check(cachefname):
     ccode = None
     run_cached = False
     if os.path.isfile(cachefname):
-        with open(cachefname, "rb") as cfile:
-            if not _check_cache_versions(cfile):
-                return False, None
-            try:
+        try:
+            with open(cachefname, "rb") as cfile:
+                if not _check_cache_versions(cfile):
+                    return False, None
                 ccode = marshal.load(cfile)
-            except Exception:
-                # Cache file is corrupted (e.g. truncated by a crash).
-                # Ignore it — the code will be recompiled and cached again.
-                return False, None
-            run_cached = True
+        except Exception:
+            # Cache file is unreadable or corrupted (e.g. truncated by a crash).
+            # Ignore it — the code will be recompiled and cached again.
+            return False, None
+        if not isinstance(ccode, types.CodeType):
+            return False, None
+        run_cached = True
     return run_cached, ccode
 
 
